@@ -180,7 +180,7 @@ func sizeClassOf(n int) string {
 
 func runC01(c *Ctx) {
 	r := c.R
-	r.SetRule("one object of 64 MiB + 1 on the backends that buffer bodies (PUT, GET, HEAD, copy); body size ladder (0,1,2,15..17,511..513,4095..4097,32767..32769,65535..65537, 1 MiB-1/1 MiB/1 MiB+1, thorough also 3 MiB+7, plus random sizes) x byte pattern (zeros, 0xFF, all 256 values, CR/LF/NUL-heavy, random) x key class (plain, nested, needs-escaping, UTF-8, long, dotted) x metadata class x upload path (PUT, browser-form POST, copy, Go PutObject) on all seven backend configurations with integrity checking on and off; every upload is read back by GET, HEAD, List V1/V2 and the Go API, and every third one again after ten bystander requests (refused bucket delete/create, bucket sub-resource reads, reads and deletes of a never-written sibling key); overwrites go longer->shorter, every third PUT replaces an object that carries other values for the same headers (incl. the server's default Content-Type as the new value), and every fourth PUT / Go PutObject is repeated with the same bytes and other metadata; form uploads whose metadata fields are spelt in other letter case, replaced by a PUT that sends the same header, read back twelve times; six objects per backend are also read by GET and HEAD through a real net/http server and their entity headers compared; distinct = (backend, integrity, upload path, size, pattern, key class, metadata class) with a body different from the key's previous body")
+	r.SetRule("one object of 64 MiB + 1 on the backends that buffer bodies (PUT, GET, HEAD, copy); body size ladder (0,1,2,15..17,511..513,4095..4097,32767..32769,65535..65537, 1 MiB-1/1 MiB/1 MiB+1, thorough also 3 MiB+7, plus random sizes) x byte pattern (zeros, 0xFF, all 256 values, CR/LF/NUL-heavy, random) x key class (plain, nested, needs-escaping, UTF-8, long, dotted) x metadata class x upload path (PUT, browser-form POST, copy, Go PutObject) on all seven backend configurations with integrity checking on and off; every upload is read back by GET, HEAD, List V1/V2 and the Go API, and every third one again after ten bystander requests (refused bucket delete/create, bucket sub-resource reads, reads and deletes of a never-written sibling key); overwrites go longer->shorter, every third PUT replaces an object that carries other values for the same headers (incl. the server's default Content-Type as the new value), and every fourth PUT / Go PutObject is repeated with the same bytes and other metadata; form uploads whose metadata fields are spelt in other letter case, replaced by a PUT that sends the same header, read back twelve times; six objects per backend are also read by GET and HEAD through a real net/http server and their entity headers compared; distinct = (backend, integrity, upload path, size, pattern, key class, metadata class) with a body different from the key's previous body; uploads served on the file backends while the n-th file-system call of a class fails (ENOSPC/EIO through a wrapper around the afero file system): one that is acknowledged all the same reads exactly as uploaded by GET and HEAD")
 	sizes := append([]int(nil), gen.SizeLadder...)
 	sizes = append(sizes, 1<<20-1, 1<<20, 1<<20+1)
 	if r.Thorough() {
@@ -595,6 +595,9 @@ func runC01(c *Ctx) {
 	}
 	for _, p := range paths {
 		r.Require("uploads_"+p, 100)
+	}
+	if c.Only == "" {
+		runC01Faults(r)
 	}
 	r.Require("reads_get", 1000)
 	c01FormSpellings(r)
